@@ -43,7 +43,9 @@ def families(tier, seed):
 
 
 def main():
-    chk = Check("C01", "exploration")
+    chk = Check("C01", "other")
+    # deductive part: the state-layout loop of ComputeGraph.to_func (bounded stand-in if undecided: the layout clause below)
+    chk.run_contracts("contracts.c01", names=["ComputeGraph.to_func@state-layout"], fallback={"*": lambda: []})
     cases = families(chk.tier, chk.seed)
     driver.run_family(
         chk, "get_run_func-vs-spec_rhs", cases, case_fn, site="C01/get_run_func",
@@ -56,7 +58,9 @@ def main():
         nontrivial=lambda c: bool(c["model"].get("edges")) or any(len(n["ops"]) > 1 for n in c["model"].get("nodes", {}).values()),
         sample_of=lambda c: dict(tag=c["tag"], vec=c["vec"], model=c["model"]))
     rc = chk.finish(
-        explanation="Bounded run-time contract check (NOT a proof): the postcondition of CircuitTemplate.get_run_func is "
+        explanation="Deductive (small core): the state-layout loop of ComputeGraph.to_func gives the k-th state variable the range "
+                    "[start_k, start_k + npos_k) with start_0 = 0, start_{k+1} = stop_k, pairwise disjoint, for ANY number of variables and "
+                    "any sizes. Everything else is a bounded run-time contract check (NOT a proof): the postcondition of CircuitTemplate.get_run_func is "
                     "stated against the pure spec function spec_rhs (reference semantics read off the property; expression "
                     "trees evaluated directly, never parsed) and evaluated on every model of the families above. Deduction "
                     "over the sympy/networkx/exec pipeline is out of reach of any verifier installed here.",
